@@ -91,6 +91,15 @@ CHECKS = {
          'library(assoc); every result (or solution list) must equal the model\'s.',
     note='Trusted: the Python models and the C13 reference order. Only exported predicates; K4 (sort/2 rejecting lists with a '
          'one-char-atom prefix) is a KNOWN-FINDING.'),
+ 'C23': dict(
+    level='exploration',
+    technique='runtime monitoring: reference term model (Python) next to the engine + "inspection leaves the term unchanged" invariant',
+    text='Generated terms with heavy variable sharing, strings inside structures, boxed/bignum/rational leaves are given to '
+         'functor/3 (decompose/construct/ISO errors), arg/3 (bound index, out of range, ISO errors), =../2 both ways, copy_term/2 '
+         '(variant, disjoint variables, original unchanged), term_variables/2 (order, no duplicates), ground/1 and subsumes_term/2 '
+         '(vs one-way matching; no bindings left); every result is compared with the model.',
+    note='Trusted: the Python term model. Attributed variables are not generated (C26). arg/3 with an unbound index raises '
+         'instantiation_error in this system (ISO 8.5.2.3 a), so no enumeration mode is asserted.'),
 }
 
 NOT_APPLICABLE_REASON_UNBUILT = ('check designed in DESIGN.md but not built/validated yet in this session; '
